@@ -161,15 +161,23 @@ def r1(ctx, prog, sf):
     gs = None
     extra = 0
     for s in walk_no_nested(pr.node):
+        # the guard that closes a batch: its body queues the batch and
+        # starts a new (empty) one
         if isinstance(s, ast.If) and isinstance(s.test, ast.Compare) and \
                 norm(s.test.left).startswith("len(") and \
-                isinstance(s.test.ops[0], (ast.GtE, ast.Gt, ast.Eq)):
+                isinstance(s.test.ops[0], (ast.GtE, ast.Gt, ast.Eq)) and \
+                any(isinstance(b, ast.Assign) and
+                    isinstance(b.value, ast.List) and not b.value.elts
+                    for b in s.body):
             gs = norm(s.test.comparators[0])
             extra = 1 if isinstance(s.test.ops[0], ast.Gt) else 0
     idx = None
     if isinstance(loop.iter, ast.Call) and norm(loop.iter.func) == \
             "enumerate" and isinstance(loop.target, ast.Tuple):
         idx = norm(loop.target.elts[0])
+    if isinstance(istart, ast.Name):
+        from .c08 import _resolve_local
+        istart = _resolve_local(pr.node, istart)
     t = norm(istart).replace(" ", "")
     ok_stride = False
     stride_form = idx is not None and gs is not None and \
